@@ -137,3 +137,9 @@ Theorem C04_aa_final_exact : forall ref que gs inter out, variants_pair_traced r
   (In v (map fst out) <-> exists g l, In g gs /\ get_aas_traced ref que (ref_to_msa ref) g = Ok l /\ In v (map fst l)).
 Proof. exact aa_final_exact. Qed.
 Print Assumptions C04_aa_final_exact.
+
+(* no record twice: the mutation list of a sequence is duplicate-free for EVERY annotation - also when features share a name and
+   a codon (pp1ab / pp1a) - since the duplicate removal drops every repetition, not only adjacent ones (repair D20) *)
+Theorem C04_no_record_twice : forall ref que gs inter out, variants_pair_traced ref que gs inter = Ok out -> NoDup (map fst out).
+Proof. exact final_list_nodup. Qed.
+Print Assumptions C04_no_record_twice.
